@@ -386,6 +386,23 @@ theorem frame_shift_partial (F : FloatOps) (bp k L : Nat) (s t : State) (h : ShB
     (r = .next ∧ r' = .next ∧ ShB bp k L s' t') ∨ (r = .ret ∧ s'.err ≠ none) :=
   UgoVerif.Proofs.Shift.frame_shift_partial F s t ⟨h, hok⟩ r s' r' t' h1 h2
 
+/-- **steps_shift_partial.**  `frame_shift_partial` iterated over any number `n` of instructions
+    (`runSteps`: the loop body repeated; `CoveredRun`: every instruction the child executes on the way
+    satisfies `StepOk`): if neither VM panicked or left the model, both are still running in `ShB`-related
+    states — equal heap, globals, module cache, `child.stack[i] = parent.stack[bp+i]` — or the child has
+    stopped with `vm.err` set. -/
+theorem steps_shift_partial (F : FloatOps) (bp k L n : Nat) (s t : State) (h : ShB bp k L s t)
+    (hc : CoveredRun F L n s) (r r' : Ctl) (s' t' : State)
+    (h1 : runSteps F n s = some (r, s')) (h2 : runSteps F n t = some (r', t')) :
+    (r = .next ∧ r' = .next ∧ ShB bp k L s' t') ∨ (r = .ret ∧ s'.err ≠ none) :=
+  UgoVerif.Proofs.Shift.steps_shift_partial F n s t h hc r s' r' t' h1 h2
+
+/-- what `ShB` says about the observable state: same heap, globals and module cache -/
+theorem shB_observables (bp k L : Nat) (s t : State) (h : ShB bp k L s t) :
+    s.heap = t.heap ∧ s.globals = t.globals ∧ s.modules = t.modules ∧ s.ip = t.ip ∧ t.sp = s.sp + bp := by
+  obtain ⟨N, a, h, _, _⟩ := h
+  exact ⟨h.heap, h.globals, h.modules, h.ip, by rw [h.spT, h.spS]⟩
+
 /-- the opcode list of `frame_shift_partial`, by number (opcodes.go) -/
 theorem coveredOps_eq : coveredOps =
     [0, 1, 3, 4, 5, 6, 7, 8, 9, 10, 11, 12, 13, 14, 15, 17, 18, 20, 21, 22, 23, 24, 25, 26, 27, 28, 29, 30, 31, 32, 33,
